@@ -9,6 +9,11 @@ import VpnCloud.Proofs.Lemmas.BeaconLemmas
   `VpnCloud/Proofs/Lemmas/BeaconLemmas.lean` (in this namespace) because the lemmas need it.
   The hypothesis `hz` of the round trip (masked body does not begin with a zero byte) is part of the
   given statement; the `example`s at the end show that it cannot be dropped.
+
+  The block counter of `mask_with_keystream` is the wrapping `u8` of the repaired code
+  (`iter = iter.wrapping_add(1)`, /repo commit "fix: do not overflow the keystream block counter …"):
+  all theorems hold for data of every length; `keystream_period` and `long_body_roundtrip` describe what
+  happens beyond 4096 bytes.
 -/
 namespace VpnCloud.Proofs.C17
 
@@ -33,6 +38,46 @@ theorem mask_wf (env : BeaconEnv) (h : EnvWF env) (d : Bytes) (hd : Bytes.WF d) 
 /-- the seed byte protects the body: what was encrypted decrypts to itself -/
 theorem encrypt_decrypt (env : BeaconEnv) (h : EnvWF env) (d : Bytes) : decryptData env (encryptData env d) = some d :=
   decrypt_encrypt env d
+
+/-! ## data of more than 4096 bytes: the block counter wraps, the key stream repeats -/
+
+/-- closed form of `mask_with_keystream` for data of any length: the byte at index `j` is xored with byte
+    `j % 16` of key stream block `(j / 16) % 256` -/
+theorem mask_getElem? (env : BeaconEnv) (d : Bytes) (t s j : Nat) :
+    (mask env d t s)[j]? = d[j]?.map (fun b => b ^^^ (env.ks t s ((j / 16) % 256)).getD (j % 16) 0) := by
+  rw [mask_eq_xorStream, xorStream_getElem?, Nat.zero_add]; rfl
+
+/-- **keystream_period**: the block counter is a `u8` that wraps, so block `i + 256` of the data is masked with the
+    same 16 key stream bytes as block `i` (byte `p` of the hash of `[type, seed, i mod 256] ++ key`) — for data of
+    more than 4096 bytes the key stream repeats.  This is what release builds of the node always did; since the
+    fix every build does. -/
+theorem keystream_period (env : BeaconEnv) (d : Bytes) (t s i p b b' : Nat) (hp : p < 16)
+    (h1 : d[16 * i + p]? = some b) (h2 : d[16 * (i + 256) + p]? = some b') :
+    (mask env d t s)[16 * i + p]? = some (b ^^^ (env.ks t s (i % 256)).getD p 0) ∧
+    (mask env d t s)[16 * (i + 256) + p]? = some (b' ^^^ (env.ks t s (i % 256)).getD p 0) := by
+  rw [mask_getElem?, mask_getElem?, h1, h2]
+  rw [show (16 * i + p) / 16 % 256 = i % 256 by omega, show (16 * i + p) % 16 = p by omega,
+    show (16 * (i + 256) + p) / 16 % 256 = i % 256 by omega, show (16 * (i + 256) + p) % 16 = p by omega]
+  exact ⟨rfl, rfl⟩
+
+/-- the same fact for whole chunks: behind a multiple of 4096 bytes the masking starts again with block 0 -/
+theorem mask_append_period (env : BeaconEnv) (a b : Bytes) (t s k : Nat) (ha : a.length = 4096 * k) :
+    mask env (a ++ b) t s = mask env a t s ++ mask env b t s := by
+  rw [mask_eq_xorStream, mask_eq_xorStream, mask_eq_xorStream, xorStream_append, ha, xorStream_period]
+
+/-- **long_body_roundtrip**: masking is length preserving and an involution, and what was encrypted decrypts to
+    itself, for data of ANY length — in particular beyond the 4096 bytes after which the `u8` block counter wraps
+    (no hypothesis on the length, none on the hash) -/
+theorem long_body_roundtrip (env : BeaconEnv) (d : Bytes) (t s : Nat) :
+    (mask env d t s).length = d.length ∧ mask env (mask env d t s) t s = d ∧
+    decryptData env (encryptData env d) = some d :=
+  ⟨mask_length env d t s, mask_involutive env d t s, decrypt_encrypt env d⟩
+
+/-- `long_body_roundtrip` spelled out for the long bodies the old `u8` counter could not handle -/
+theorem long_body_roundtrip_beyond (env : BeaconEnv) (d : Bytes) (t s : Nat) (_hl : 4096 < d.length) :
+    (mask env d t s).length = d.length ∧ mask env (mask env d t s) t s = d ∧
+    decryptData env (encryptData env d) = some d :=
+  long_body_roundtrip env d t s
 
 /-- the wrapping 16-bit age test is exactly "within ttl hours in either direction" -/
 theorem age_window (now thn ttl : Nat) (hn : now < 65536) (ht : thn < 65536) :
@@ -100,6 +145,18 @@ def toyText : List Char := "DRPvoXOHri1VECYTSk9Vq2NrqabOphE1BoLssIKbnqgecO".toLi
 
 example : mask toyEnv [1, 2, 3] 2 9 = [43, 40, 41] := by decide +kernel
 example : decryptData toyEnv (encryptData toyEnv [1, 2, 3]) = some [1, 2, 3] := encrypt_decrypt toyEnv toyEnv_wf _
+/-- a body of 5000 bytes: the key stream of block 256 (bytes 4096 …) is the one of block 0, the one of block 1 is
+    another one; the body survives encryption and decryption -/
+def longBody : Bytes := List.replicate 5000 0
+example : 4096 < longBody.length := by decide +kernel
+example : (mask toyEnv longBody 2 9)[4096]? = (mask toyEnv longBody 2 9)[0]? ∧
+    (mask toyEnv longBody 2 9)[4096 + 16]? = (mask toyEnv longBody 2 9)[16]? ∧
+    (mask toyEnv longBody 2 9)[16]? ≠ (mask toyEnv longBody 2 9)[0]? := by decide +kernel
+example : (mask toyEnv longBody 2 9)[16 * 0 + 3]? = some (0 ^^^ (toyEnv.ks 2 9 (0 % 256)).getD 3 0) ∧
+    (mask toyEnv longBody 2 9)[16 * (0 + 256) + 3]? = some (0 ^^^ (toyEnv.ks 2 9 (0 % 256)).getD 3 0) :=
+  keystream_period toyEnv longBody 2 9 0 3 0 0 (by decide) (by decide +kernel) (by decide +kernel)
+example : decryptData toyEnv (encryptData toyEnv longBody) = some longBody :=
+  (long_body_roundtrip_beyond toyEnv longBody TYPE_DATA 0 (by decide +kernel)).2.2
 /-- the seed byte does detect a change of the body -/
 example : decryptData toyEnv ((encryptData toyEnv [1, 2, 3]).set 0 7) = none := by decide +kernel
 example : tooOld 2 65535 3 = false ∧ tooOld 65535 2 3 = false ∧ tooOld 10 2 3 = true := by decide
